@@ -1,4 +1,5 @@
 import FcpptProofs.C12.Grammar
+import FcpptProofs.C12.GrammarTerm
 /-! The location invariant through the combinators for EVERY stream, failing ones included, and
     whatever the outcome (result, stream exception, divergence). -/
 namespace Fcppt.C12
@@ -435,5 +436,70 @@ theorem goodH_xrun {t : List Ch} {k : Option Nat} (xs : List XOp) : ∀ {h : HSt
     cases o with
     | op o => exact goodH_step g o
     | parse sk p => exact ⟨(safe_phrase sk p (x := ⟨h.s, []⟩) g.1).1, g.2⟩
+
+/-! ### plain streams: the live invariant `At` through interleaved histories of well-formed parses -/
+
+def XOp.wf : XOp → Bool
+  | .op _ => true
+  | .parse sk p => sk.wf && p.wf
+
+/-- live plain stream at some index, every saved position valid -/
+def LiveH (t : List Ch) (h : HState) : Prop := (∃ i, At t h.s i) ∧ ∀ p ∈ h.saved, ValidPos t p
+
+theorem liveH_open (t : List Ch) : LiveH t (HState.open t none) := ⟨⟨0, at_open t⟩, by simp [HState.open]⟩
+
+theorem live_at {t : List Ch} {h : HState} (g : LiveH t h) : At t h.s h.s.is.idx := by
+  obtain ⟨⟨i, a⟩, _⟩ := g
+  rw [a.idx]; exact a
+
+theorem liveH_step {t : List Ch} {h : HState} (g : LiveH t h) (o : Op) : LiveH t (step h o).1 := by
+  obtain ⟨⟨i, a⟩, g2⟩ := g
+  cases o with
+  | get =>
+    obtain ⟨s', e, a'⟩ := at_get a
+    simp only [step, e]
+    exact ⟨⟨_, a'⟩, g2⟩
+  | pos =>
+    obtain ⟨s', e, a'⟩ := at_pos a
+    simp only [step, e]
+    refine ⟨⟨_, a'⟩, ?_⟩
+    intro q hq
+    rcases List.mem_append.mp hq with hq | hq
+    · exact g2 q hq
+    · simp only [List.mem_singleton] at hq
+      subst hq
+      exact ⟨i, a.le, rfl⟩
+  | set j =>
+    simp only [step]
+    cases hj : h.saved[j]? with
+    | none => exact ⟨⟨i, a⟩, g2⟩
+    | some p =>
+      obtain ⟨j', hj', rfl⟩ := g2 p (List.mem_of_getElem? hj)
+      obtain ⟨s', e, a'⟩ := at_set a hj'
+      simp only [e]
+      exact ⟨⟨_, a'⟩, g2⟩
+
+theorem liveH_xrun {t : List Ch} (xs : List XOp) : ∀ {h : HState}, LiveH t h → (∀ x ∈ xs, x.wf = true) →
+    LiveH t (xrun h xs) := by
+  induction xs with
+  | nil => intro h g _; exact g
+  | cons o os ih =>
+    intro h g hw
+    apply ih _ (fun x hx => hw x (by simp [hx]))
+    cases o with
+    | op o => exact liveH_step g o
+    | parse sk p =>
+      have hwf := hw (.parse sk p) (by simp)
+      simp only [XOp.wf, Bool.and_eq_true] at hwf
+      obtain ⟨⟨i, a⟩, g2⟩ := g
+      obtain ⟨r, j, e, _, _, _⟩ := aphrase_prog t sk hwf.1 p hwf.2 i a.le
+      have := agrees_andThen (skip_agrees sk ⟨h.s, []⟩ i a) (parse_agrees (t := t) sk p)
+      have e' : (sk.askip t i).andThen (p.aparse t sk) = .ok (r, j) := e
+      rw [e'] at this
+      obtain ⟨_, h2, _⟩ := this
+      refine ⟨⟨j, ?_⟩, g2⟩
+      show At t (TS.phrase p sk ⟨h.s, []⟩).1.s j
+      rw [phrase_fst]
+      exact h2
 
 end Fcppt.C12
